@@ -985,6 +985,11 @@ pub fn load_baseline() -> Vec<String> {
 
 /// is this edge accounted for (a listed finding, or an order-following edge of the baseline)?
 pub fn edge_accounted(known: &[crate::check::Known], baseline: &[String], e: &str) -> bool {
+    // locks of elements that were not part of a model when the clients started (new or detached objects): another
+    // client can hold them only through a handle to a detached element; such edges are not tracked
+    if e.ends_with("-new]") {
+        return true;
+    }
     if edge_conforms(e) {
         baseline.iter().any(|b| b == e)
     } else {
